@@ -42,6 +42,7 @@ for p in $PROPS; do
   det="$det $p:rc=$rc:violations=$nv"
   grep -E '^(VIOLATION|  (conv|kernel)|SPURIOUS|UNCONFIRMED|TOOL-ERROR)' /tmp/check_${ID}_$p.out | head -6
 done
+git -C /repo apply -R $OUT/patch.diff 2>/dev/null || git -C /repo checkout -- .
 git -C /repo checkout -- .
 rm -rf /verif/evidence /verif/replays; cp -a /tmp/evbak_$ID/evidence /verif/evidence; [ -d /tmp/evbak_$ID/replays ] && cp -a /tmp/evbak_$ID/replays /verif/replays; rm -rf /tmp/evbak_$ID
 echo "detection:$det"
